@@ -152,6 +152,7 @@ func runC12(c *Ctx, tier string) {
 	runC12P4(c)
 	// P5
 	runC12P5(c)
+	runJournalFreshness(c, "C12-F1")
 }
 
 func runC12P1(c *Ctx) {
